@@ -169,6 +169,66 @@ def oracle(ctx, rng, n):
             ctx.violation("c14-step-dependent", "pressure drop depends on the step size: %s" % tot, case=case)
 
 
+def oracle_decimal_planes(ctx, rng, n):
+    """grids lying exactly on axial planes of a DECIMAL mesh (steps of 1, 2, 2.5 mm ... whose multiples are not exact in binary
+    floating point, so a position accumulated step by step drifts off the plane), in the interior of the bundle and on its upper
+    boundary: each is counted exactly once, whatever the step"""
+    from harness import modelio
+    from harness.checks.c10 import bits
+    reqs, got = [], []
+    for ci in range(n):
+        L = 0.3
+        mesh = rng.choice([0.001, 0.002, 0.0025, 0.0009, 0.0005])
+        nplanes = int(round(L / mesh))
+        ks = sorted(set([2, rng.randint(3, nplanes // 2), rng.randint(nplanes // 2, nplanes - 2)][:rng.choice([1, 2, 3])]))
+        grids = [round(k * mesh, 12) for k in ks]
+        regions = ci % 2 == 1
+        seed_case = rng.getrandbits(32)
+        case = single_case(random.Random(seed_case), grids, False, mesh, L, False, n_ring=rng.choice([2, 3]))
+        if regions:
+            # bundle [z_lo, z_hi] with a reflector above; one grid ON the upper bound of the bundle
+            k_hi = rng.randint(int(0.6 * nplanes), int(0.9 * nplanes))
+            z_hi = round(k_hi * mesh, 12)
+            case['types']['t0']['AxialRegion'] = [dict(name='upper', z_lo=z_hi, z_hi=L, vf_coolant=0.3, model='simple')]
+            grids = [g for g in grids if g < z_hi] + [z_hi]
+            case['types']['t0']['SpacerGrid']['axial_positions'] = grids
+            gi.random_power(rng, case)
+        try:
+            r, a, parts, per_region, total = run_case(ctx, case, "dp%d" % ci)
+        except SystemExit:
+            ctx.count("rejected")
+            continue
+        ctx.evals += 1
+        if abs(float(r.req_dz) - mesh) > 1e-12:
+            ctx.count("decimal_mesh_not_honoured")
+            continue
+        reg = a.region[0]
+        kloss = reg.coolant_int_params['grid_loss_coeff'] * reg.coolant.density * reg.coolant_int_params['vel'] ** 2 / 2
+        counted = parts['spacer_grid'] / kloss
+        ctx.count("decimal_plane_cases" + (":grid-on-bundle-top" if regions else ""))
+        # the planes the bundle is swept over, as the Reactor holds them
+        zb_hi = (z_hi if regions else L)
+        planes = [float(z) for z in r.z if float(z) <= zb_hi + 1e-13]
+        reqs.append("dpp %s | %s" % (" ".join(str(bits(g)) for g in grids), " ".join(str(bits(z)) for z in planes)))
+        got.append((counted, grids, mesh))
+        if abs(counted - len(grids)) > 1e-6:
+            ctx.violation("c14-grid-count:on-decimal-plane" + (":bundle-top" if regions else ""),
+                          "%d spacer grids on planes of the %.4g m mesh (%s) but %.3f grid losses were accumulated"
+                          % (len(grids), mesh, grids, counted), case=case, grids=grids, mesh=mesh)
+    if reqs and modelio.build_driver(ctx):
+        bad = 0
+        for rep, (counted, grids, mesh) in zip(modelio.ask(reqs), got):
+            p_ = rep.split()
+            if p_[0] != "ok" or abs(int(p_[1]) - counted) > 1e-6:
+                bad += 1
+                if bad == 1:
+                    ctx.problem("correspondence", "Model.Pressure.gridLosses vs the grid losses a real sweep accumulates",
+                                "model %s, implementation %.6f (grids %s, mesh %g)" % (rep, counted, grids, mesh))
+        ctx.obligation("correspondence: Model.Pressure.gridLosses (comparisons only, c14_planes_once) = grid losses accumulated by "
+                       "real sweeps over %d decimal plane lists" % len(reqs), bad == 0, kind="correspondence",
+                       detail="disagreements %d" % bad)
+
+
 def oracle_thin_regions(ctx, rng, n):
     """step-size independence when two axial boundaries are closer together than one step: a plate region a few millimetres
     thick on top of the lower unrodded region, or a requested plane a few millimetres past a region boundary; every region must
@@ -312,11 +372,13 @@ def run(ctx):
     oracle(ctx, rng, 60 if ctx.thorough else 16)
     oracle_clones(ctx, rng, 8 if ctx.thorough else 2)
     oracle_thin_regions(ctx, rng, 8 if ctx.thorough else 3)
+    oracle_decimal_planes(ctx, rng, 24 if ctx.thorough else 6)
     ctx.nontrivial = ctx.evals
     ctx.traces = ctx.evals
     ctx.trusted += ["T1 trace of the per-step increments; hand fold model lean/Dassh/Model/Pressure.lean (its step rule is "
                     "the one the oracle checks on real sweeps)"]
-    ctx.assumptions += ["constant coolant properties for the closed forms; exact arithmetic for z - dz (the code accumulates "
-                        "z in floating point; dyadic steps are exact)",
+    ctx.assumptions += ["constant coolant properties for the closed forms; c14_grid_once needs exact arithmetic for z - dz, "
+                        "c14_planes_once (the rule of the corrected code: previous position < grid <= position) holds in any "
+                        "linear order, floating point included",
                         "one loss is applied per step even if two grids fall into the same step (the model mirrors the "
                         "code's `any`); the oracle uses grids further apart than a step"]
